@@ -24,9 +24,10 @@ RULE = ("(a) every label assignment over a 2-letter (quick) / 3-letter "
         "ladder: blocks with exactly k distinct labels, k in {1,2,3,4,5,16,"
         "17,256,257,65536,65537}, cubic and non-cubic, 1 and 3 channels, "
         "repeated tables and tables differing only above bit 32; (c) shapes "
-        "{1..5}^3, (9,5,3), (16,16,16) filled with i mod m. Input arrays are handed over in four memory "
-        "layouts (C, Fortran, the moveaxis view volume conversion produces, "
-        "strided), cycling through the enumeration. One evaluation = "
+        "{1..5}^3, (9,5,3), (16,16,16) filled with i mod m. Input arrays are handed over in seven "
+        "forms (C, Fortran, the moveaxis view volume conversion produces, "
+        "strided, a narrower unsigned dtype, big-endian, a wider dtype - "
+        "which may be refused), cycling through the enumeration. One evaluation = "
         "one encode + spec validation/decode + package decode; non-trivial "
         "= >= 2 blocks or >= 2 distinct labels.")
 ASSUMPTIONS = [
@@ -70,7 +71,8 @@ def _case(dtype, shape, block, chans, gen=None):
     return c
 
 
-LAYOUTS = ("C", "F", "xyzc-view", "strided")
+LAYOUTS = ("C", "F", "xyzc-view", "strided", "narrow-dtype", "bigendian",
+           "wider-dtype")
 _ENCODERS = {}
 
 
@@ -88,6 +90,20 @@ def _lay(arr, layout):
         big = np.zeros(arr.shape[:3] + (2 * arr.shape[3],), dtype=arr.dtype)
         big[..., ::2] = arr
         return big[..., ::2]
+    if layout == "narrow-dtype":
+        # labels handed over in a narrower unsigned type than the dataset's
+        # (what a library user holding uint8/uint16/uint32 labels does)
+        top = int(arr.max()) if arr.size else 0
+        for t in ("uint8", "uint16", "uint32"):
+            if np.dtype(t).itemsize < arr.dtype.itemsize and \
+                    top <= np.iinfo(t).max:
+                return arr.astype(t)
+        return arr
+    if layout == "bigendian":
+        return arr.astype(arr.dtype.newbyteorder(">"))
+    if layout == "wider-dtype":
+        # uint64 array for a uint32 dataset: refused, or encoded correctly
+        return arr.astype("uint64")
     return arr
 
 
@@ -100,7 +116,8 @@ def _evaluate(col, dtype, shape, block, chans, gen=None, layout="C"):
     Z, Y, X = shape
     nch = len(chans)
     itemsize = 4 if dtype == "uint32" else 8
-    arr = _lay(np.array(chans, dtype=dtype).reshape((nch, Z, Y, X)), layout)
+    ref = np.array(chans, dtype=dtype).reshape((nch, Z, Y, X))
+    arr = _lay(ref, layout)
     if layout != "C":
         case["layout"] = layout
     gx, gy, gz = cseg_spec.grid(shape, block)
@@ -118,6 +135,9 @@ def _evaluate(col, dtype, shape, block, chans, gen=None, layout="C"):
                 dtype, nch, list(block))
         buf = enc.encode(arr)
     except Exception as exc:
+        if layout == "wider-dtype" and arr.dtype != ref.dtype:
+            col.ev(1, nontriv, "refused-wider-input")
+            return
         col.ev(1, nontriv, "encode-exception")
         col.violation("C02/encode/exception/%s/%s" % (type(exc).__name__,
                                                       kind),
@@ -145,17 +165,17 @@ def _evaluate(col, dtype, shape, block, chans, gen=None, layout="C"):
                       % (type(exc).__name__, kind), case, "the array",
                       repr(exc)[:300])
     else:
-        if tuple(back.shape) != arr.shape or back.dtype.newbyteorder(
-                "=") != arr.dtype:
+        if tuple(back.shape) != ref.shape or back.dtype.newbyteorder(
+                "=") != ref.dtype:
             ok = False
             col.violation("C02/package-decoder/shape-or-dtype/" + kind, case,
-                          "%s %r" % (arr.dtype, arr.shape),
+                          "%s %r" % (ref.dtype, ref.shape),
                           "%s %r" % (back.dtype, tuple(back.shape)))
-        elif not np.array_equal(back, arr):
+        elif not np.array_equal(back, ref):
             ok = False
             col.violation("C02/package-decoder/wrong-labels/" + kind, case,
                           "the original labels", "%d voxels differ"
-                          % int(np.count_nonzero(back != arr)))
+                          % int(np.count_nonzero(back != ref)))
     col.ev(1, nontriv, ("ok/" if ok else "bad/") + kind)
 
 
@@ -290,9 +310,9 @@ def run_unit(u):
             for i, a in enumerate(arrays):
                 b = arrays[(i + 1) % len(arrays)]
                 _evaluate(col, dtype, shape, block, [list(a)],
-                          layout=LAYOUTS[i % 4])
+                          layout=LAYOUTS[i % len(LAYOUTS)])
                 _evaluate(col, dtype, shape, block, [list(a), list(b)],
-                          layout=LAYOUTS[(i + 2) % 4])
+                          layout=LAYOUTS[(i + 2) % len(LAYOUTS)])
         col.sample(_case(dtype, shape, tuple(u["blocks"][-1]),
                          [list(arrays[-1])]))
     else:
